@@ -32,6 +32,16 @@ def main():
     sh(["git", "-C", "/repo", "worktree", "add", "-q", "--detach", wt, "HEAD"])
     try:
         rc, o = sh(["git", "apply", "--check", patch], cwd=wt)
+        if rc != 0:
+            # written against an earlier HEAD: try a fuzzy application and keep the result as the patch to use
+            rc2, o2 = sh("patch -p1 -F3 -s --no-backup-if-mismatch < %s && ! find . -name '*.rej' | grep -q . && git diff > %s.rebased && git checkout -q -- ." % (patch, patch), cwd=wt)
+            if rc2 == 0 and os.path.getsize(patch + ".rebased") > 0:
+                patch = patch + ".rebased"
+                shutil.copy(patch, os.path.join(out, "patch.diff"))
+                meta["rebased_with_fuzz"] = True
+                rc = 0
+            else:
+                sh("git checkout -q -- . && git clean -fdq", cwd=wt)
         meta["patch_applies"] = rc == 0
         if rc != 0:
             meta["apply_error"] = o[-500:]
